@@ -29,6 +29,14 @@ type c20Case struct {
 	Version int       `json:"version"` // 1 = 2011, 2 = 2013, 3 = 2019
 	Phone   string    `json:"phone"`
 	Steps   []c20Step `json:"steps"`
+	// Neighbours are further simulated terminals created after this one and used in between its steps: every
+	// terminal's frames carry its own phone whatever other terminals exist in the process.
+	Neighbours []c20Neighbour `json:"neighbours,omitempty"`
+}
+
+type c20Neighbour struct {
+	Version int    `json:"version"`
+	Phone   string `json:"phone"`
 }
 
 var simCommands = map[uint16]string{0x0001: "T0x0001", 0x0002: "T0x0002", 0x0100: "T0x0100", 0x0102: "T0x0102", 0x0200: "T0x0200", 0x0704: "T0x0704",
@@ -84,6 +92,14 @@ func genC20(t *rapid.T) c20Case {
 	default:
 		c.Phone = rapid.StringMatching(fmt.Sprintf("[1-9][0-9]{%d}", maxDigits-1)).Draw(t, "phone_full")
 	}
+	for i, k := 0, rapid.SampledFrom([]int{0, 0, 1, 2, 3}).Draw(t, "neighbours"); i < k; i++ {
+		nb := c20Neighbour{Version: rapid.IntRange(1, 3).Draw(t, "nb_version")}
+		if rapid.Bool().Draw(t, "nb_same_version") {
+			nb.Version = c.Version
+		}
+		nb.Phone = rapid.StringMatching("[1-9][0-9]{3,11}").Draw(t, "nb_phone")
+		c.Neighbours = append(c.Neighbours, nb)
+	}
 	n := rapid.IntRange(1, 12).Draw(t, "steps")
 	if rapid.IntRange(0, 19).Draw(t, "long") == 0 {
 		n = rapid.IntRange(100, 200).Draw(t, "steps_long")
@@ -117,7 +133,22 @@ func checkC20(c c20Case, _ *kit.Collector) kit.Result {
 	}
 	res.NT = (len(c.Phone) < maxDigits || chk == 0x7e || chk == 0x7d) && len(c.Steps) >= 2
 	prevSerial := -1
+	var others []*terminal.Terminal
+	for _, nb := range c.Neighbours {
+		others = append(others, terminal.New(terminal.WithHeader(consts.ProtocolVersionType(nb.Version), nb.Phone)))
+	}
+	if len(others) > 0 {
+		res.Labels = append(res.Labels, "neighbour_terminals")
+	}
 	for i, s := range c.Steps {
+		if len(others) > 0 {
+			k := i % len(others)
+			nf, why := ref.Validate(others[k].CreateDefaultCommandData(consts.JT808CommandType(0x0002)))
+			if why != "" || ref.StripZeros(ref.PhoneDigits(nf.PhoneBCD)) != ref.StripZeros(c.Neighbours[k].Phone) || int(nf.Serial) != i/len(others)+1 {
+				res.Err = kit.Fail("neighbour terminal %d (version %d, phone %q), its frame number %d: %s phone %x serial %d", k, c.Neighbours[k].Version, c.Neighbours[k].Phone, i/len(others)+1, why, nf.PhoneBCD, nf.Serial)
+				return res
+			}
+		}
 		var data []byte
 		if s.Custom {
 			data = term.CreateCommandData(consts.JT808CommandType(s.Cmd), append([]byte(nil), s.Body...))
